@@ -52,6 +52,14 @@ type Options struct {
 	// Requires Index to be set: without an index there is no way to identify
 	// tracked entries, so the scope is treated as a no-op.
 	IgnoreScope *gitignore.Scope
+
+	// IgnoreExecutableBit makes the walk treat every regular file as not
+	// executable, whatever its permission bits say. It is the counterpart of
+	// RootNodeOptions.UpholdExecutableBit=false on the index side and must be
+	// set together with it (core.fileMode=false): the index noder then reports
+	// executable entries as regular, and a file that merely has its x bit set
+	// must not look modified.
+	IgnoreExecutableBit bool
 }
 
 // The node represents a file or a directory in a billy.Filesystem. It
@@ -359,7 +367,7 @@ func (n *node) calculateHash() {
 		n.hash = make([]byte, 24)
 		return
 	}
-	mode, err := filemode.NewFromOSFileMode(n.mode)
+	mode, err := n.fileMode()
 	if err != nil {
 		n.hash = plumbing.ZeroHash.Bytes()
 		return
@@ -387,6 +395,23 @@ func (n *node) calculateHash() {
 	n.hash = append(hash.Bytes(), mode.Bytes()...)
 }
 
+// fileMode is the git mode of the file as the comparison is to see it: with
+// IgnoreExecutableBit an executable file counts as a regular one.
+func (n *node) fileMode() (filemode.FileMode, error) {
+	mode, err := filemode.NewFromOSFileMode(n.mode)
+	if err != nil {
+		return mode, err
+	}
+	return n.normalizeMode(mode), nil
+}
+
+func (n *node) normalizeMode(mode filemode.FileMode) filemode.FileMode {
+	if mode == filemode.Executable && n.options != nil && n.options.IgnoreExecutableBit {
+		return filemode.Regular
+	}
+	return mode
+}
+
 func (n *node) metadataMatches(entry *index.Entry) bool {
 	if entry == nil {
 		return false
@@ -400,12 +425,12 @@ func (n *node) metadataMatches(entry *index.Entry) bool {
 		return false
 	}
 
-	mode, err := filemode.NewFromOSFileMode(n.mode)
+	mode, err := n.fileMode()
 	if err != nil {
 		return false
 	}
 
-	if mode != entry.Mode {
+	if mode != n.normalizeMode(entry.Mode) {
 		return false
 	}
 
